@@ -40,6 +40,9 @@ pub enum Scen {
     /// scripts); the main output, the first part, the received HTLC and their second level are
     /// swept, the second part is not: the channel must never be discarded
     TwoParts,
+    /// funding confirmed, the mutual close confirmed and reorganised out again, forget requested:
+    /// nothing is buried, the channel has to stay
+    MutualReorged,
 }
 
 #[derive(Clone, Debug, Serialize, Deserialize)]
@@ -59,6 +62,9 @@ pub struct NodeCfg {
     /// unilateral scenarios: the counterparty's commitment confirms instead of the holder's
     #[serde(default)]
     pub cp_close: bool,
+    /// blocks are delivered (and disconnected) as streams of chunks
+    #[serde(default)]
+    pub streamed: bool,
 }
 
 #[derive(Clone, Copy, Debug, PartialEq, Eq, Hash, PartialOrd, Ord, Serialize, Deserialize)]
@@ -144,6 +150,14 @@ fn wcfg(cloud: bool, perm: bool) -> WorldCfg {
 }
 
 impl NodeModel {
+    fn delivery(&self) -> Delivery {
+        if self.cfg.streamed {
+            Delivery::Streamed
+        } else {
+            Delivery::Compact
+        }
+    }
+
     fn tx_for(&self, s: &NState, t: Tx) -> Option<Transaction> {
         let f = s.f.as_ref()?;
         let conf = s.confirmed();
@@ -154,21 +168,21 @@ impl NodeModel {
         }
         match t {
             Tx::Fund => {
-                if spent(&f.wallet_in) || matches!(self.cfg.scen, Scen::Mutual | Scen::Unilateral | Scen::Swept | Scen::HtlcsSwept | Scen::TwoParts | Scen::Prunable) {
+                if spent(&f.wallet_in) || matches!(self.cfg.scen, Scen::Mutual | Scen::MutualReorged | Scen::Unilateral | Scen::Swept | Scen::HtlcsSwept | Scen::TwoParts | Scen::Prunable) {
                     None
                 } else {
                     Some(f.funding_tx.clone())
                 }
             }
             Tx::DoubleSpend => {
-                if spent(&f.wallet_in) || matches!(self.cfg.scen, Scen::Mutual | Scen::Unilateral | Scen::Swept | Scen::HtlcsSwept | Scen::TwoParts | Scen::Prunable) {
+                if spent(&f.wallet_in) || matches!(self.cfg.scen, Scen::Mutual | Scen::MutualReorged | Scen::Unilateral | Scen::Swept | Scen::HtlcsSwept | Scen::TwoParts | Scen::Prunable) {
                     None
                 } else {
                     Some(simple_tx(vec![f.wallet_in], vec![(CHANNEL_VALUE, unrelated_script(1))], 7))
                 }
             }
             Tx::Mutual => {
-                let funded = get(Tx::Fund).is_some() || matches!(self.cfg.scen, Scen::Unilateral | Scen::Mutual | Scen::Swept | Scen::HtlcsSwept | Scen::Prunable);
+                let funded = get(Tx::Fund).is_some() || matches!(self.cfg.scen, Scen::Unilateral | Scen::Mutual | Scen::MutualReorged | Scen::Swept | Scen::HtlcsSwept | Scen::Prunable);
                 if !funded || spent(&f.setup.funding_outpoint) || matches!(self.cfg.scen, Scen::Unilateral | Scen::Swept | Scen::HtlcsSwept | Scen::TwoParts) {
                     return None;
                 }
@@ -210,7 +224,7 @@ impl NodeModel {
         }
         let block = make_block(&s.chain.tip().0, s.chain.height() + 1, salt, txs);
         let w = s.w.as_ref().unwrap();
-        let r = w.connect(&mut s.chain, block, Delivery::Compact);
+        let r = w.connect(&mut s.chain, block, self.delivery());
         if r.is_ok() {
             s.names.push(names.to_vec());
         }
@@ -299,7 +313,7 @@ impl Model for NodeModel {
     }
 
     fn name(&self) -> String {
-        format!("nodemc({:?},ops<={}{}{}{}{})", self.cfg.scen, self.cfg.max_ops, if self.cfg.monitors { ",monitors" } else { "" }, if self.cfg.cloud { ",cloud-store" } else { "" }, if self.cfg.anchors { ",anchors" } else { "" }, if self.cfg.cp_close { ",counterparty-commitment" } else { "" })
+        format!("nodemc({:?},ops<={}{}{}{}{})", self.cfg.scen, self.cfg.max_ops, if self.cfg.monitors { ",monitors" } else { "" }, if self.cfg.cloud { ",cloud-store" } else { "" }, if self.cfg.anchors { ",anchors" } else { "" }, if self.cfg.cp_close { ",counterparty-commitment" } else { "" }) + if self.cfg.streamed { ",streamed" } else { "" }
     }
 
     fn init(&self) -> NState {
@@ -308,10 +322,10 @@ impl Model for NodeModel {
         let b = make_block(&chain.tip().0, chain.height() + 1, 0, vec![]);
         assert!(w.connect(&mut chain, b, Delivery::Compact).is_ok());
         let mut s = NState { w: Some(w), f: None, chain: SimChain::new(chain.tip(), chain.height()), names: vec![], ghost: Ghost::default(), dead: false, nops: 0 };
-        if matches!(self.cfg.scen, Scen::Mutual | Scen::DoubleSpend | Scen::Prunable) {
+        if matches!(self.cfg.scen, Scen::Mutual | Scen::DoubleSpend | Scen::Prunable | Scen::MutualReorged) {
             let f = fund_channel(s.w(), 1, false, false);
             s.ghost.ready.insert(1, true);
-            if matches!(self.cfg.scen, Scen::Mutual | Scen::Prunable) {
+            if matches!(self.cfg.scen, Scen::Mutual | Scen::Prunable | Scen::MutualReorged) {
                 let mut chain = chain.clone();
                 let b = make_block(&chain.tip().0, chain.height() + 1, 0, vec![f.funding_tx.clone()]);
                 assert!(s.w().connect(&mut chain, b, Delivery::Compact).is_ok());
@@ -343,6 +357,20 @@ impl Model for NodeModel {
                     assert!(r.is_ok(), "scenario block {:?}: {}", t, r.tag());
                 }
             }
+        }
+        if self.cfg.scen == Scen::MutualReorged {
+            let r = self.connect_block(&mut s, &[Tx::Mutual], 60);
+            assert!(r.is_ok(), "scenario block (mutual close): {}", r.tag());
+            let r = {
+                let w = s.w.as_ref().unwrap();
+                w.disconnect(&mut s.chain, self.delivery())
+            };
+            assert!(r.is_ok(), "scenario disconnect: {}", r.tag());
+            s.names.pop();
+            let r = s.w().forget_channel(1);
+            assert!(r.is_ok(), "scenario forget: {}", r.tag());
+            s.ghost.forget_requested.insert(1, true);
+            s.ghost.hwm = 1;
         }
         if self.cfg.scen == Scen::Prunable {
             let r = self.connect_block(&mut s, &[Tx::Mutual], 60);
@@ -406,7 +434,7 @@ impl Model for NodeModel {
                 }
             }
             Scen::Ids => {}
-            Scen::Prunable => {
+            Scen::Prunable | Scen::MutualReorged => {
                 v.push(Op::Forget(1));
                 v.push(Op::New(1));
             }
@@ -573,7 +601,7 @@ impl Model for NodeModel {
             Op::Disconnect(k) => {
                 for _ in 0..*k {
                     let w = s.w.as_ref().unwrap();
-                    let r = w.disconnect(&mut s.chain, Delivery::Compact);
+                    let r = w.disconnect(&mut s.chain, self.delivery());
                     if !r.is_ok() {
                         vios.push(Vio { prop: "C14", key: format!("C14:disconnect-failed:node:{}", r.tag()), what: format!("disconnect failed: {}", r.tag()) });
                         s.dead = true;
@@ -616,8 +644,8 @@ pub struct NodeRun {
 pub fn configs(tier: Tier, monitors: bool) -> Vec<NodeCfg> {
     let mut v = configs_plain(tier, monitors);
     if monitors && tier == Tier::Thorough {
-        v.push(NodeCfg { scen: Scen::Lifecycle, max_ops: 5, monitors, cloud: true, perm: false, anchors: false, cp_close: false });
-        v.push(NodeCfg { scen: Scen::Mutual, max_ops: 5, monitors, cloud: true, perm: false, anchors: false, cp_close: false });
+        v.push(NodeCfg { scen: Scen::Lifecycle, max_ops: 5, monitors, cloud: true, perm: false, anchors: false, cp_close: false, streamed: false });
+        v.push(NodeCfg { scen: Scen::Mutual, max_ops: 5, monitors, cloud: true, perm: false, anchors: false, cp_close: false, streamed: false });
     }
     v
 }
@@ -625,34 +653,38 @@ pub fn configs(tier: Tier, monitors: bool) -> Vec<NodeCfg> {
 fn configs_plain(tier: Tier, monitors: bool) -> Vec<NodeCfg> {
     match (tier, monitors) {
         (Tier::Quick, false) => vec![
-            NodeCfg { scen: Scen::Mutual, max_ops: 5, monitors, cloud: false, perm: false, anchors: false, cp_close: false },
-            NodeCfg { scen: Scen::DoubleSpend, max_ops: 5, monitors, cloud: false, perm: false, anchors: false, cp_close: false },
-            NodeCfg { scen: Scen::Lifecycle, max_ops: 4, monitors, cloud: false, perm: false, anchors: false, cp_close: false },
-            NodeCfg { scen: Scen::Ids, max_ops: 6, monitors, cloud: false, perm: false, anchors: false, cp_close: false },
-            NodeCfg { scen: Scen::HtlcsSwept, max_ops: 4, monitors, cloud: false, perm: false, anchors: true, cp_close: true },
-            NodeCfg { scen: Scen::TwoParts, max_ops: 4, monitors, cloud: false, perm: false, anchors: false, cp_close: false },
-            NodeCfg { scen: Scen::Swept, max_ops: 5, monitors, cloud: false, perm: false, anchors: false, cp_close: false },
+            NodeCfg { scen: Scen::Mutual, max_ops: 5, monitors, cloud: false, perm: false, anchors: false, cp_close: false, streamed: false },
+            NodeCfg { scen: Scen::DoubleSpend, max_ops: 5, monitors, cloud: false, perm: false, anchors: false, cp_close: false, streamed: false },
+            NodeCfg { scen: Scen::Lifecycle, max_ops: 4, monitors, cloud: false, perm: false, anchors: false, cp_close: false, streamed: false },
+            NodeCfg { scen: Scen::Ids, max_ops: 6, monitors, cloud: false, perm: false, anchors: false, cp_close: false, streamed: false },
+            NodeCfg { scen: Scen::HtlcsSwept, max_ops: 4, monitors, cloud: false, perm: false, anchors: true, cp_close: true, streamed: false },
+            NodeCfg { scen: Scen::TwoParts, max_ops: 4, monitors, cloud: false, perm: false, anchors: false, cp_close: false, streamed: false },
+            NodeCfg { scen: Scen::MutualReorged, max_ops: 3, monitors, cloud: false, perm: false, anchors: false, cp_close: false, streamed: true },
+            NodeCfg { scen: Scen::Swept, max_ops: 5, monitors, cloud: false, perm: false, anchors: false, cp_close: false, streamed: false },
         ],
         (Tier::Quick, true) => vec![
-            NodeCfg { scen: Scen::Lifecycle, max_ops: 4, monitors, cloud: false, perm: false, anchors: false, cp_close: false },
-            NodeCfg { scen: Scen::Mutual, max_ops: 3, monitors, cloud: false, perm: false, anchors: false, cp_close: false },
-            NodeCfg { scen: Scen::Lifecycle, max_ops: 3, monitors, cloud: true, perm: false, anchors: false, cp_close: false },
-            NodeCfg { scen: Scen::Prunable, max_ops: 3, monitors, cloud: false, perm: true, anchors: false, cp_close: false },
+            NodeCfg { scen: Scen::Lifecycle, max_ops: 4, monitors, cloud: false, perm: false, anchors: false, cp_close: false, streamed: false },
+            NodeCfg { scen: Scen::Mutual, max_ops: 3, monitors, cloud: false, perm: false, anchors: false, cp_close: false, streamed: false },
+            NodeCfg { scen: Scen::Lifecycle, max_ops: 3, monitors, cloud: true, perm: false, anchors: false, cp_close: false, streamed: false },
+            NodeCfg { scen: Scen::Prunable, max_ops: 3, monitors, cloud: false, perm: true, anchors: false, cp_close: false, streamed: false },
         ],
         (Tier::Thorough, _) => vec![
-            NodeCfg { scen: Scen::Lifecycle, max_ops: 7, monitors, cloud: false, perm: false, anchors: false, cp_close: false },
-            NodeCfg { scen: Scen::Mutual, max_ops: 7, monitors, cloud: false, perm: false, anchors: false, cp_close: false },
-            NodeCfg { scen: Scen::DoubleSpend, max_ops: 7, monitors, cloud: false, perm: false, anchors: false, cp_close: false },
-            NodeCfg { scen: Scen::Unilateral, max_ops: 7, monitors, cloud: false, perm: false, anchors: false, cp_close: false },
-            NodeCfg { scen: Scen::Swept, max_ops: 6, monitors, cloud: false, perm: false, anchors: false, cp_close: false },
-            NodeCfg { scen: Scen::Ids, max_ops: 8, monitors, cloud: false, perm: false, anchors: false, cp_close: false },
-            NodeCfg { scen: Scen::Unilateral, max_ops: 6, monitors, cloud: false, perm: false, anchors: true, cp_close: true },
-            NodeCfg { scen: Scen::HtlcsSwept, max_ops: 6, monitors, cloud: false, perm: false, anchors: true, cp_close: true },
-            NodeCfg { scen: Scen::HtlcsSwept, max_ops: 5, monitors, cloud: false, perm: false, anchors: false, cp_close: false },
-            NodeCfg { scen: Scen::Swept, max_ops: 5, monitors, cloud: false, perm: false, anchors: true, cp_close: false },
-            NodeCfg { scen: Scen::Swept, max_ops: 5, monitors, cloud: false, perm: false, anchors: false, cp_close: true },
-            NodeCfg { scen: Scen::TwoParts, max_ops: 5, monitors, cloud: false, perm: false, anchors: false, cp_close: false },
-            NodeCfg { scen: Scen::TwoParts, max_ops: 5, monitors, cloud: false, perm: false, anchors: true, cp_close: true },
+            NodeCfg { scen: Scen::Lifecycle, max_ops: 7, monitors, cloud: false, perm: false, anchors: false, cp_close: false, streamed: false },
+            NodeCfg { scen: Scen::Mutual, max_ops: 7, monitors, cloud: false, perm: false, anchors: false, cp_close: false, streamed: false },
+            NodeCfg { scen: Scen::DoubleSpend, max_ops: 7, monitors, cloud: false, perm: false, anchors: false, cp_close: false, streamed: false },
+            NodeCfg { scen: Scen::Unilateral, max_ops: 7, monitors, cloud: false, perm: false, anchors: false, cp_close: false, streamed: false },
+            NodeCfg { scen: Scen::Swept, max_ops: 6, monitors, cloud: false, perm: false, anchors: false, cp_close: false, streamed: false },
+            NodeCfg { scen: Scen::Ids, max_ops: 8, monitors, cloud: false, perm: false, anchors: false, cp_close: false, streamed: false },
+            NodeCfg { scen: Scen::Unilateral, max_ops: 6, monitors, cloud: false, perm: false, anchors: true, cp_close: true, streamed: false },
+            NodeCfg { scen: Scen::HtlcsSwept, max_ops: 6, monitors, cloud: false, perm: false, anchors: true, cp_close: true, streamed: false },
+            NodeCfg { scen: Scen::HtlcsSwept, max_ops: 5, monitors, cloud: false, perm: false, anchors: false, cp_close: false, streamed: false },
+            NodeCfg { scen: Scen::Swept, max_ops: 5, monitors, cloud: false, perm: false, anchors: true, cp_close: false, streamed: false },
+            NodeCfg { scen: Scen::Swept, max_ops: 5, monitors, cloud: false, perm: false, anchors: false, cp_close: true, streamed: false },
+            NodeCfg { scen: Scen::TwoParts, max_ops: 5, monitors, cloud: false, perm: false, anchors: false, cp_close: false, streamed: false },
+            NodeCfg { scen: Scen::TwoParts, max_ops: 5, monitors, cloud: false, perm: false, anchors: true, cp_close: true, streamed: false },
+            NodeCfg { scen: Scen::MutualReorged, max_ops: 5, monitors, cloud: false, perm: false, anchors: false, cp_close: false, streamed: true },
+            NodeCfg { scen: Scen::MutualReorged, max_ops: 5, monitors, cloud: false, perm: false, anchors: false, cp_close: false, streamed: false },
+            NodeCfg { scen: Scen::Mutual, max_ops: 6, monitors, cloud: false, perm: false, anchors: false, cp_close: false, streamed: true },
         ],
     }
 }
